@@ -18,6 +18,7 @@ func init() {
 				clRefreshOnlyOnVisible(c)
 				clFrameGrammar(c)
 				clChecksumOperands(c)
+				clReaderVersionAndSingleStream(c)
 			})
 			c.Do("C05.e", "L2 restored count source and verification", 8, func() { clRestoredCount(c); clVerificationPrecedesAcceptance(c); clRestoreItemSize(c) })
 		},
